@@ -101,8 +101,8 @@ def st_c12(ctx):
     from . import file_driver as fd
     work = ctx.scratch("verif_st_")
     ops = [{"op": "store_chunk", "c": fd.CHUNKS[0], "v": 1, "mime": "application/octet-stream", "ow": True},
-           {"op": "store_file", "name": "d/b", "v": 2, "mime": "application/octet-stream", "ow": False},
-           {"op": "store_file", "name": "d/b", "v": 1, "mime": "application/octet-stream", "ow": False}]
+           {"op": "store_file", "name": "d/b.x", "v": 2, "mime": "application/octet-stream", "ow": False},
+           {"op": "store_file", "name": "d/b.x", "v": 1, "mime": "application/octet-stream", "ow": False}]
     good = fd.run_history(work, {"flat": False, "gzip": True}, ops, salt=3)
     good["mixed"] = False
     muts = []
